@@ -3,6 +3,7 @@
 // classifies abnormal exits by the sanitizer summary line / signal and the first library
 // frame, and kills children that exceed the time limit.
 #pragma once
+#include <fcntl.h>
 #include <poll.h>
 #include <signal.h>
 #include <sys/wait.h>
@@ -176,6 +177,77 @@ inline ChildResult runIsolated(const std::function<int()>& fn, int timeoutSec) {
 		iso::classify(res);
 	}
 	return res;
+}
+
+// Runs fn(0..n-1) in ONE forked child (an execution shortcut for cases that are expected to pass:
+// the fork of a sanitised process costs more than most cases). Returns the index of the first case
+// that did not complete - sanitizer report, signal, non-zero return, or no progress within the time
+// limit - or n when all completed. The caller decides such a case by running it on its own.
+inline size_t runBatchIsolated(size_t n, const std::function<int(size_t)>& fn, int perCaseTimeoutSec) {
+	int pfd[2];
+	if (n == 0 || pipe(pfd) != 0)
+		return 0;
+	fflush(stdout);
+	fflush(stderr);
+	pid_t pid = fork();
+	if (pid < 0) {
+		close(pfd[0]);
+		close(pfd[1]);
+		return 0;
+	}
+	if (pid == 0) {
+		close(pfd[0]);
+		int nul = open("/dev/null", O_WRONLY);
+		if (nul >= 0) {
+			dup2(nul, 1);
+			dup2(nul, 2);
+		}
+		for (size_t i = 0; i < n; i++) {
+			int code = 99;
+			try {
+				code = fn(i);
+			}
+			catch (...) {
+				code = 98;
+			}
+			if (code != 0)
+				_exit(50);
+			char b = 1;
+			if (write(pfd[1], &b, 1) != 1)
+				_exit(51);
+		}
+		_exit(0);
+	}
+	close(pfd[1]);
+	size_t done = 0;
+	auto last = std::chrono::steady_clock::now();
+	bool killed = false;
+	for (;;) {
+		double el = std::chrono::duration<double>(std::chrono::steady_clock::now() - last).count();
+		int remain = static_cast<int>((perCaseTimeoutSec - el) * 1000);
+		if (remain <= 0) {
+			kill(pid, SIGKILL);
+			killed = true;
+			break;
+		}
+		struct pollfd p = {pfd[0], POLLIN, 0};
+		int pr = poll(&p, 1, remain > 500 ? 500 : remain);
+		if (pr > 0) {
+			char buf[256];
+			ssize_t k = read(pfd[0], buf, sizeof buf);
+			if (k <= 0)
+				break;
+			done += static_cast<size_t>(k);
+			last = std::chrono::steady_clock::now();
+		}
+	}
+	close(pfd[0]);
+	int status = 0;
+	waitpid(pid, &status, 0);
+	(void) killed;
+	if (done >= n && WIFEXITED(status) && WEXITSTATUS(status) == 0)
+		return n;
+	return done < n ? done : n - 1;
 }
 
 } // namespace vf
